@@ -82,6 +82,11 @@ def run_interp_check(pid, gen, fields, counts, tier, seed, rule, design_ref, ext
                                    "source": c["src"], "cancel_at": c["cancel_at"], "model": m,
                                    "how_to_replay": "vm.RunContext with the counting context of harness/interp.go cancelled at poll number cancel_at"})
                 continue
+            if impl["status"] == "parse-error":
+                # a program of the generator that the real parser rejects: counted on its own so that a template that never runs shows
+                key = "rejected-by-the-parser:" + ",".join((c.get("tags") or ["?"])[:1])
+                dropped[key] = dropped.get(key, 0) + 1
+                continue
             if impl_oracle:
                 for why in impl_oracle(c):
                     mism += 1
@@ -165,7 +170,7 @@ def run_interp_check(pid, gen, fields, counts, tier, seed, rule, design_ref, ext
                 "Go runtime behaviour modelled not verified: reflect, append growth (formula validated against the toolchain), "
                 "strconv/fmt float routines (oracle tables filled from the real functions)"],
             "evaluations": len(cases), "compared": compared, "judged_on_the_implementation_alone": impl_only, "distinct_nontrivial": meta["distinct_nontrivial"],
-            "dropped_outside_fragment": dropped, "mismatches": mism, "implementation_panics": panics,
+            "dropped_outside_fragment": dropped, "generated_programs_rejected_by_the_parser": meta.get("parse_failures", 0), "mismatches": mism, "implementation_panics": panics,
             "compared_fields": list(fields), "rule": rule, "directed_expectations_checked": exp_checked, "constructs": meta["constructs"],
             "samples": [{"src": c["src"][:600], "impl": c["impl"]} for c in cases[len(cases) // 2: len(cases) // 2 + 2]],
             "make_ok": ok_make,
